@@ -58,7 +58,7 @@ def small_region(rng, kind=None, compound_depth=0, base=None):
 
 class Check(PropertyCheck):
     id = 'C02'
-    lean_targets = ['RegionsVerif.Props.C02', 'RegionsVerif.Props.C02Mask', 'RegionsVerif.Props.C08']
+    lean_targets = ['RegionsVerif.Props.C02', 'RegionsVerif.Props.C02Mask', 'RegionsVerif.Props.C02Fast', 'RegionsVerif.Props.C08']
     namespaces = ['RegionsVerif.Props.C02']
     rule = ('maskable regions (circle, ellipse, rectangle, polygon, regular polygon, three annuli, and/or/xor compounds to depth 2) '
             'of a few pixels x centres on pixel edges/corners/generic/far from the origin (1e3, 1e6) x mode center / subpixels 1..12 / '
@@ -67,8 +67,9 @@ class Check(PropertyCheck):
                    'at most that many samples)',
                    'the compiled kernels (.so) are what runs; Cython is not installed, so a .pyx edit cannot take effect (DESIGN 1.2)',
                    'cos/sin of the angle as computed by libm inside the kernel agree with numpy to a few ulp']
-    validated_only = ["the circle kernel's fast paths (d < r - pixel_radius => 1, d >= r + pixel_radius => 0) need sqrt and are not modelled in the "
-                      "executable model: their agreement with sampling is checked by this differential run on every case",
+    validated_only = ["the circle kernel's fast paths (d < r - pixel_radius => 1, d >= r + pixel_radius => 0) need sqrt and are not in the "
+                      "EXECUTABLE model; that they agree with sampling is a theorem over R (C02Fast.circle_fast_paths_sound) and is also checked "
+                      "by this differential run on every case",
                       "'exact' mode is C03"]
 
     def generate(self, rng, tier):
